@@ -73,12 +73,19 @@ def fileSeek (fs : Fs) (fd : Fd) (off : Int) (w : Whence) : Fd × Option Nat :=
   | (fd', .ok n) => (fd', some n)
   | (fd', .error _) => (fd', none)
 
+/-- File::read(buffer, len): ONE read(2) of at most `len` bytes from the current position -/
+def fileRead (fs : Fs) (fd : Fd) (len : Nat) : Fd × Option Bytes :=
+  match sysRead fs fd len with
+  | (fd', .ok d) => (fd', some d)
+  | (fd', .error _) => (fd', none)
+
 /-- the operations on one open File object and what they answer -/
 inductive FileOp
   | write (d : Bytes)
   | seek (off : Int) (w : Whence)
   | readAll
   | size
+  | read (len : Nat)
 deriving Repr
 
 inductive FileOut
@@ -93,6 +100,7 @@ def fileStep (fs : Fs) (fd : Fd) : FileOp → Fs × Fd × FileOut
   | .seek off w => let (fd', r) := fileSeek fs fd off w; (fs, fd', .pos r)
   | .readAll => let (fd', r) := fileReadAll fs fd; (fs, fd', .data r)
   | .size => let (fd', r) := fileSize fs fd; (fs, fd', .size r)
+  | .read n => let (fd', r) := fileRead fs fd n; (fs, fd', .data r)
 
 /-- a script of operations on one File object -/
 def runOps (fs : Fs) (fd : Fd) : List FileOp → Fs × Fd × List FileOut
